@@ -213,6 +213,8 @@ func c10Case(env *Env, tape *sim.Tape) *CaseOut {
 		return c10ScalingAt(env, tape)
 	case d == 3 || d == 90:
 		return c10HelperPkg(env, tape)
+	case d >= 4 && d < 10: // one case in 16
+		return c10JSGrammar(env, tape)
 	}
 	out := &CaseOut{}
 	di := tape.Draw(len(env.Corpus))
